@@ -42,6 +42,12 @@ def gen(rng, tier):
         p = G.random_pda(rng, rng.randint(1, 3), rng.choice(['a', 'ab']), rng.choice(['x', 'xy']), rng.choice(['_', 'ε']), ntrans=rng.randint(1, 7), pfinal=0.5)
         p['delta'] = [t for t in p['delta'] if not (t[1] == p['eps'] and t[4] != p['eps'])]
         cases.append({'kind': 'pda', 'X': p, 'ws': G.words_str(p['Sigma'], 3 if len(p['Sigma']) == 1 else 2), 'limit': 1000})
+    # pushing epsilon loops (infinitely many epsilon-reachable configurations): the closures are cut off at a small limit, the
+    # path search of pda_simulate_word must still return for every word the acceptance test accepts
+    for _ in range(80 if quick else 1500):
+        p = G.random_pda(rng, rng.randint(2, 4), 'a', 'xy', '_', ntrans=rng.randint(3, 8), pfinal=0.4, kinds=['push', 'pop', 'noop', 'push'])
+        if any(t[1] == p['eps'] and t[4] != p['eps'] for t in p['delta']):
+            cases.append({'kind': 'pda', 'X': p, 'ws': ['', 'a', 'aa'], 'limit': rng.choice([30, 60])})
     for _ in range(150 if quick else 2500):
         g = G.random_cnf(rng, rng.randint(2, 5), 2, rng.randint(3, 9), start_eps=0.1)
         cases.append({'kind': 'cfg', 'X': g, 'ws': [w for w in G.all_words(2, 4 if not quick else 3) if w]})
@@ -67,10 +73,16 @@ def observe(c):
             out.append(None if not ok(r) else [None if r[1] is None else [[q, rem] for q, rem in r[1]]])
     elif k == 'pda':
         from gambatools.pda_algorithms import pda_simulate_word
+        from gambatools.global_settings import GambaTools
         P = conv.pda_obj(x)
-        for w in c['ws']:
-            r = safe(pda_simulate_word, P, w)
-            out.append(None if not ok(r) else [None if r[1] is None else [[q, rem, list(st)] for q, rem, st in r[1]]])
+        old_limit = GambaTools.pda_epsilon_closure_max_iterations
+        GambaTools.pda_epsilon_closure_max_iterations = c['limit']
+        try:
+            for w in c['ws']:
+                r = safe(pda_simulate_word, P, w)
+                out.append(None if not ok(r) else [None if r[1] is None else [[q, rem, list(st)] for q, rem, st in r[1]]])
+        finally:
+            GambaTools.pda_epsilon_closure_max_iterations = old_limit
     else:
         from gambatools.cfg_algorithms import cfg_derive_word
         from gambatools.cfg import Variable
